@@ -318,7 +318,10 @@ def make_component(cs, trace=None):
 def make_nl_solver(name, opts=None):
     import openmdao.api as om
     opts = dict(opts or {})
-    common = dict(err_on_non_converge=True, iprint=-1)
+    # reraise_child_analysiserror: by default a nonlinear solver swallows the AnalysisError of a child solver and goes on
+    # (NLBGS then even reports convergence when the outputs stop changing); the premise "every solver reports convergence"
+    # needs the child's failure to surface
+    common = dict(err_on_non_converge=True, iprint=-1, reraise_child_analysiserror=True)
     if name == 'runonce':
         return om.NonlinearRunOnce()
     if name == 'newton':
@@ -339,7 +342,8 @@ def make_nl_solver(name, opts=None):
             s.options['use_apply_nonlinear'] = True
         return s
     if name == 'nlbj':
-        return om.NonlinearBlockJac(maxiter=800, atol=1e-12, rtol=1e-12, **common)
+        # (NonlinearBlockJac has no such option: its sweep does not go through Solver._gs_iter and lets the error through)
+        return om.NonlinearBlockJac(maxiter=800, atol=1e-12, rtol=1e-12, err_on_non_converge=True, iprint=-1)
     if name == 'broyden':
         return om.BroydenSolver(maxiter=100, atol=1e-12, rtol=1e-12, **common)
     raise ValueError(name)
